@@ -37,33 +37,40 @@ Proof. exact trace_strict_ok. Qed.
 Theorem C13_trace_derived_ok : forall seed c t, trace_derived seed c t = true -> trace_ok seed t = true.
 Proof. exact trace_derived_ok. Qed.
 
-(* every old-style draw lies strictly between 0 and 1, provided the first state is not 0 *)
+(* every old-style draw lies strictly between 0 and 1 - for EVERY seed > 0 (the repaired step
+   "if (Random_value == 0) Random_value = 1" keeps the state in [1,p) whatever it starts from) *)
 Theorem C13_uniform_range : forall (G : Type) (gseed : Z -> G) (gstep : G -> G * Q) (st : rng G) (s : Z) (n : nat),
-  old_style st = true -> (0 < s)%Z -> lcg_next s <> 0%Z ->
+  old_style st = true -> (0 < s)%Z ->
   Forall in_open01 (stream G gstep n (set_seed G gseed s st)).
 Proof. exact uniform_range. Qed.
 Print Assumptions C13_uniform_range.
 
-(* below 2^32/105 the 32-bit product does not wrap and the condition is "seed not a multiple of p" *)
-Theorem C13_uniform_range_small : forall (G : Type) (gseed : Z -> G) (gstep : G -> G * Q) (st : rng G) (s : Z) (n : nat),
-  old_style st = true -> (0 < s <= 40904450)%Z -> (s mod rnd_p <> 0)%Z ->
-  Forall in_open01 (stream G gstep n (set_seed G gseed s st)).
-Proof. exact uniform_range_small. Qed.
-Print Assumptions C13_uniform_range_small.
+(* ... and also without any seeding, from whatever state the generator is in *)
+Theorem C13_uniform_range_any_state : forall (G : Type) (gstep : G -> G * Q) (st : rng G) (n : nat),
+  old_style st = true -> Forall in_open01 (stream G gstep n st).
+Proof. exact uniform_range_any. Qed.
+Print Assumptions C13_uniform_range_any_state.
 
-(* "seed mod p <> 0 -> every draw in ]0,1[" is FALSE over all positive int seeds: the 32-bit
-   wrap-around of 105*seed produces further seeds whose first state is 0 *)
-Theorem C13_uniform_range_refuted : exists s : Z,
-  (0 < s < two31)%Z /\ (s mod rnd_p <> 0)%Z /\ lcg_next s = 0%Z.
-Proof. exists 55380756%Z. vm_compute. repeat split; discriminate. Qed.
-Print Assumptions C13_uniform_range_refuted.
+(* state invariant of the repaired step *)
+Theorem C13_state_invariant : forall v : Z, (0 < lcg_next v < rnd_p)%Z.
+Proof. exact lcg_range. Qed.
+Print Assumptions C13_state_invariant.
 
-(* a seed whose first state is 0 freezes the generator: every draw is 0 *)
-Theorem C13_degenerate_seed : forall (G : Type) (gseed : Z -> G) (gstep : G -> G * Q) (st : rng G) (s : Z) (n : nat),
-  old_style st = true -> (0 < s)%Z -> lcg_next s = 0%Z ->
-  Forall (fun u => u == 0) (stream G gstep n (set_seed G gseed s st)).
-Proof. exact degenerate_seed. Qed.
-Print Assumptions C13_degenerate_seed.
+(* on [1,p) the repair never triggers: the step is x -> 105 x mod p, which is injective there *)
+Theorem C13_step_injective : forall v w : Z,
+  (0 < v < rnd_p)%Z -> (0 < w < rnd_p)%Z -> lcg_next v = lcg_next w -> v = w.
+Proof. exact lcg_inj. Qed.
+Print Assumptions C13_step_injective.
+
+(* regression: the step as it was before the repair froze at 0, from multiples of the modulus and -
+   through the 32-bit wrap of 105*seed - from other seeds as well *)
+Example C13_prefix_step_froze :
+  lcg_next_prefix 20000159 = 0%Z /\ lcg_next_prefix 40000318 = 0%Z /\ lcg_next_prefix 55380756 = 0%Z /\
+  (55380756 mod rnd_p <> 0)%Z /\ lcg_next_prefix 0 = 0%Z /\
+  lcg_next 20000159 = 1%Z /\ lcg_next 55380756 = 1%Z /\ lcg_next 0 = 1%Z /\ lcg_next 1 = 105%Z.
+Proof. vm_compute. repeat split; try reflexivity; discriminate. Qed.
+Theorem C13_prefix_frozen : forall n, lcg_iter_prefix n 0 = 0%Z.
+Proof. exact lcg_prefix_frozen. Qed.
 
 (* two different seeds in [1,p[ never produce the same k-th draw *)
 Theorem C13_seeds_differ : forall (G : Type) (gseed : Z -> G) (gstep : G -> G * Q) (st : rng G) (s1 s2 : Z) (n : nat),
@@ -84,10 +91,12 @@ Definition gbbR (wexp alog : R -> R) :=
 Definition gibbsR (wexp alog : R -> R) :=
   gibbs_value R Rplus Rminus Rmult Rdiv Ropp Rltb Rleb Q2R Int_part wexp alog exp ln sqrt.
 
-(* whenever law_gaussian_between_bounds returns, the value lies between the (effective) bounds *)
+(* whenever law_gaussian_between_bounds returns, the value honours every bound that is defined -
+   closed, half-open or unbounded interval; the only hypothesis is binf <= bsup when both are defined *)
 Theorem C13_bounded_draw : forall (wexp alog : R -> R) (binf bsup : option R) (us : list R) (x : R) (n : nat) (m : list R),
-  (eff_lo binf <= eff_hi bsup)%R -> Forall u_ok us ->
-  gbbR wexp alog binf bsup us = GOk x n m -> (eff_lo binf <= x <= eff_hi bsup)%R.
+  ordered binf bsup -> Forall u_ok us ->
+  gbbR wexp alog binf bsup us = GOk x n m ->
+  (forall l, binf = Some l -> (l <= x)%R) /\ (forall h, bsup = Some h -> (x <= h)%R).
 Proof. exact bounded_draw. Qed.
 Print Assumptions C13_bounded_draw.
 
@@ -99,21 +108,11 @@ Print Assumptions C13_bounded_draw_select.
 
 (* Gibbs update: new value = yk + sk * bounded draw of the standardised bounds => within the bounds *)
 Theorem C13_gibbs_in_bounds : forall (wexp alog : R -> R) (yk sk : R) (vmin vmax : option R) (us : list R) (v : R) (n : nat) (m : list R),
-  (0 < sk)%R ->
-  (eff_lo (option_map (fun t => (t - yk) / sk) vmin) <= eff_hi (option_map (fun t => (t - yk) / sk) vmax))%R ->
-  Forall u_ok us ->
+  (0 < sk)%R -> ordered vmin vmax -> Forall u_ok us ->
   gibbsR wexp alog yk sk vmin vmax us = GOk v n m ->
   (forall l, vmin = Some l -> (l <= v)%R) /\ (forall h, vmax = Some h -> (v <= h)%R).
 Proof. exact gibbs_in_bounds. Qed.
 Print Assumptions C13_gibbs_in_bounds.
-
-(* an undefined bound is replaced by -20 / +20: a defined upper bound below -20 is NOT honoured *)
-Theorem C13_bounded_draw_open_refuted : forall (wexp alog : R -> R),
-  (forall x y, (x < y)%R -> (wexp x < wexp y)%R) ->
-  forall u rest, u_ok u ->
-  exists x n m, gbbR wexp alog None (Some (-25)%R) (u :: rest) = GOk x n m /\ x = (-20)%R.
-Proof. exact open_side_beyond_large. Qed.
-Print Assumptions C13_bounded_draw_open_refuted.
 
 (* ================================ 3. conditioning ================================ *)
 Theorem C13_simrank_injective : forall nbsimu nvar i v c i' v' c',
@@ -192,7 +191,7 @@ Example C13_nonvacuous_rng :
 Proof. vm_compute. repeat split; try reflexivity; discriminate. Qed.
 
 Example C13_nonvacuous_range :
-  lcg_next 1234 <> 0%Z /\ (1234 mod rnd_p <> 0)%Z /\ lcg_next 20000159 = 0%Z /\ lcg_next 40000318 = 0%Z /\
+  (1234 mod rnd_p <> 0)%Z /\ lcg_next 1234 = 129570%Z /\
   lcg_next 2147483647 = 7466530%Z /\ (105 * 2147483647 >= two32)%Z /\
   lcg_next 1 <> lcg_next 1234 /\ lcg_next 20000158 <> lcg_next 1234.
 Proof. vm_compute. repeat split; try discriminate; try reflexivity. Qed.
@@ -201,6 +200,10 @@ Proof. vm_compute. repeat split; try discriminate; try reflexivity. Qed.
 Example C13_nonvacuous_bounded : forall wexp alog : R -> R,
   exists m, gbbR wexp alog (Some 1%R) (Some 1%R) [(/ 2)%R] = GOk 1%R 1 m /\ u_ok (/ 2)%R.
 Proof. exact degenerate_interval_example. Qed.
+(* half-open bounds: (undefined, -25) is drawn in [-45, -25] *)
+Example C13_nonvacuous_half_open :
+  gbb_bounds R Rplus Rminus Ropp Rltb Q2R None (Some (-25)%R) = ((-25 - 20)%R, (-25)%R) /\ ordered None (Some (-25)%R).
+Proof. exact bounds_open_example. Qed.
 
 (* conditioning: 2 simulations, 2 variables, 2 data, target on datum 1 for variable 1 *)
 Example C13_nonvacuous_cond :
